@@ -51,6 +51,12 @@ CLAIMED = {
             "BitRepr::count_bits and a bound derived from the verbatim baseline; the stereo assignment changes only "
             "under a `<` of real bit-count sums. A necessary condition for 'never larger than verbatim'; the "
             "saturating cost tables are not decided.", "4/C09"),
+    "C04": ("MPT/dominance on the role-found stream encoders + WHO-CALLS/WHO-WRITES on the STREAMINFO bound fields "
+            "+ backward slices of the written values",
+            "Bounds are initialised before the first frame in both encoders, every frame enters through the "
+            "bound-updating entry, frame-size bounds come from count_bits/8, and the final short frame cannot lower "
+            "the minimum block size (disjunctive rule accepting either repair style). Numeric values are not "
+            "decided.", "4/C04"),
 }
 
 NA = {
